@@ -340,6 +340,16 @@ func mapLiteral(p *pkgInfo, name string) []unmarshalCase {
 	return out
 }
 
+// funcBody: source text of the body only (no doc comment), comments stripped by go/printer of the block.
+func funcBody(p *pkgInfo, recv, name string) string {
+	fd := p.funcDecl(recv, name)
+	if fd == nil || fd.Body == nil {
+		fail("function not found: " + recv + "." + name)
+		return ""
+	}
+	return src(fd.Body)
+}
+
 func addC15Facts(facts map[string]any, syn, tj *pkgInfo) {
 	s := facts["syntax"].(map[string]any)
 	s["unmarshal_text"] = unmarshalTextFacts(syn)
@@ -348,11 +358,11 @@ func addC15Facts(facts map[string]any, syn, tj *pkgInfo) {
 	s["stringer_token"] = stringerTables(syn, "token_string.go", "token")
 	s["node_consts"] = constFacts(syn, "nodes.go")
 	s["pos_funcs"] = map[string]string{
-		"NewPos":  funcSrc(syn, "", "NewPos"),
-		"Offset":  funcSrc(syn, "Pos", "Offset"),
-		"Line":    funcSrc(syn, "Pos", "Line"),
-		"Col":     funcSrc(syn, "Pos", "Col"),
-		"IsValid": funcSrc(syn, "Pos", "IsValid"),
+		"NewPos":  funcBody(syn, "", "NewPos"),
+		"Offset":  funcBody(syn, "Pos", "Offset"),
+		"Line":    funcBody(syn, "Pos", "Line"),
+		"Col":     funcBody(syn, "Pos", "Col"),
+		"IsValid": funcBody(syn, "Pos", "IsValid"),
 	}
 	t := facts["typedjson"].(map[string]any)
 	t["node_by_name"] = mapLiteral(tj, "nodeByName")
